@@ -221,8 +221,9 @@ func c16Layout(c *Ctx) {
 	c.Floor(rule, 20, "5 builders x (type, body, fixed, status, optional)")
 }
 
-func c16Header(c *Ctx) {
-	rule := "C16/header"
+func c16Header(c *Ctx) { c16HeaderAs(c, "C16/header") }
+
+func c16HeaderAs(c *Ctx, rule string) {
 	fn := c.Fn("cmd/rdpgw/protocol", "createPacket")
 	writes, buf, ok, why := bufferWrites(fn)
 	if !ok {
